@@ -26,8 +26,19 @@ def qname(q):
 # ---------------------------------------------------------------------------------------------
 # view operations and the reference model
 # ---------------------------------------------------------------------------------------------
+ARR_ELEM_W, ARR_COUNT = 2, 2  # the array root used in emitted designs: Array[BitVector[2], 2] (4 bits)
+
+
+def root_model(kind, W):
+    if kind == "ARR":
+        return ("ARR", [list(range(i * ARR_ELEM_W, (i + 1) * ARR_ELEM_W)) for i in range(ARR_COUNT)])
+    return (kind, list(range(W)))
+
+
 def ops_for(kind, k, extended=False):
     """all view operations applicable to a vector view of documented kind `kind` and width k"""
+    if kind == "ARR":
+        return [("ai", i) for i in range(k)]
     out = [("u",), ("s",), ("b",)]
     out += [("i", j) for j in range(k)]
     out += [("sl", h, l) for l in range(k) for h in range(l, k)]
@@ -47,6 +58,8 @@ def apply_model(model, op):
     t = op[0]
     if kind == "Bit":
         raise ValueError("no views of a Bit")
+    if t == "ai":
+        return ("BV", L[op[1]])
     if t == "u":
         return ("U", L)
     if t == "s":
@@ -101,7 +114,7 @@ def op_text(op):
         return ".signed"
     if t == "b":
         return ".bitvector"
-    if t == "i":
+    if t in ("i", "ai"):
         return f"[{op[1]}]"
     if t == "sl":
         return f"[{op[1]}:{op[2]}]"
@@ -124,7 +137,7 @@ def op_key(op):
     """bracket free rendering for finding keys (keys are matched with fnmatch)"""
     t = op[0]
     return {"u": "unsigned", "s": "signed", "b": "bitvector", "msb": "msb()", "lsb": "lsb()"}.get(t) or (
-        f"idx({op[1]})" if t == "i" else f"slice({op[1]}:{op[2]})" if t == "sl" else
+        f"idx({op[1]})" if t == "i" else f"elem({op[1]})" if t == "ai" else f"slice({op[1]}:{op[2]})" if t == "sl" else
         f"msb({op[1]})" if t == "msbn" else f"lsb({op[1]})" if t == "lsbn" else
         f"msb(rest={op[1]})" if t == "msbr" else f"lsb(rest={op[1]})")
 
@@ -148,7 +161,7 @@ def chain_class(chain):
 
 def chains(root_kind, W, max_len, extended=False, skip_identity_casts=True):
     """all chains of <= max_len operations starting at a vector root; yields (chain, model)"""
-    root = (root_kind, list(range(W)))
+    root = root_model(root_kind, W)
     frontier = [((), root)]
     yield (), root
     for _ in range(max_len):
@@ -396,13 +409,15 @@ def type_text(kind, k):
 
 def render(q, kind, W, chain, term, mode):
     """CoHDL source of the wrapper entity for one chain.  Returns (source, model, out_kind, k)."""
-    model = (kind, list(range(W)))
+    model = root_model(kind, W)
     for op in chain:
         model = apply_model(model, op)
     mkind, E = model
     k = len(E)
-    if term == "iter" and mkind == "Bit":
+    if (term == "iter" and mkind == "Bit") or mkind == "ARR":
         return None
+    if kind == "ARR":
+        return render_array(q, W, chain, term, mode, model)
     ct = chain_text(chain)
     rt = type_text(kind, W)
     L = [HEADER, "class T(Entity):"]
@@ -459,6 +474,46 @@ def render(q, kind, W, chain, term, mode):
         L.append("            " + b)
     for e in extra:
         L.append("        " + e)
+    return "\n".join(L) + "\n", model, k
+
+
+def render_array(q, W, chain, term, mode, model):
+    """wrapper for a root of type Array[BitVector[2], 2] (Signal or Variable); the flat 4 bit ports d/x/o are
+    copied element-wise into / out of the array"""
+    if q[0] not in ("Signal", "Variable"):
+        return None
+    mkind, E = model
+    k = len(E)
+    ct = chain_text(chain)
+    ew = ARR_ELEM_W
+    at = f"Array[BitVector[{ew}],{ARR_COUNT}]"
+    setter = "next" if q[0] == "Signal" else "value"
+    fill = lambda src: [f"r[{i}].{setter} = self.{src}[{(i + 1) * ew - 1}:{i * ew}]" for i in range(ARR_COUNT)]
+    back = [f"self.o[{(i + 1) * ew - 1}:{i * ew}] <<= r[{i}]" for i in range(ARR_COUNT)]
+    L = [HEADER, "class T(Entity):"]
+    extra = []
+    if mode == "read":
+        vt = type_text("BV", k) if term == "iter" else type_text(mkind, k)
+        L += [f"    x = Port.input(BitVector[{W}])", f"    o = Port.output({vt})"]
+        use = [f"self.o <<= r{ct}"] if term == "whole" else [f"for i, b in enumerate(r{ct}):", "    self.o[i] <<= b"]
+        ctx, body = ("concurrent" if q[0] == "Signal" else "sequential"), fill("x") + use
+    else:
+        xt = type_text("BV", k) if term == "iter" else type_text(mkind, k)
+        L += [f"    d = Port.input(BitVector[{W}])", f"    x = Port.input({xt})", f"    o = Port.output(BitVector[{W}])"]
+        asg = "@=" if q[0] == "Variable" else "<<="
+        wr = [f"v = r{ct}", f"v {asg} self.x"] if term == "whole" else [f"for i, b in enumerate(r{ct}):", f"    b {asg} self.x[i]"]
+        ctx = "sequential"
+        if q[0] == "Signal":
+            body = fill("d") + wr
+            extra = ["@std.concurrent", "def c():"] + ["    " + b for b in back]
+        else:
+            body = fill("d") + wr + back
+    L.append("    def architecture(self):")
+    L.append(f"        r = {q[0]}[{at}]()")
+    L.append(f"        @std.{ctx}")
+    L.append("        def p():")
+    L += ["            " + b for b in body]
+    L += ["        " + e for e in extra]
     return "\n".join(L) + "\n", model, k
 
 
